@@ -4,6 +4,7 @@ PB = "google.golang.org/protobuf/"
 SUBST = {
     PB + "proto.MessageName": P + "vC23_messageName",
     "(" + PB + "proto.MarshalOptions).Size": P + "vC23_size",
+    PB + "proto.Size": P + "vC23_protoSize",
     "(" + PB + "proto.MarshalOptions).MarshalAppend": P + "vC23_marshalAppend",
     PB + "proto.Unmarshal": P + "vC23_unmarshal",
     "(*" + PB + "reflect/protoregistry.Types).FindMessageByName": P + "vC23_findMessageByName",
